@@ -42,8 +42,10 @@ def _results(P, cfg, order, n_time, is3d, z0):
         steps = []
         for t in range(n_time):
             params = [("ustar", alg.sym("ustar_%d" % t)), ("mol", alg.sym("mol_%d" % t)), ("wind_speed", alg.sym("ws_%d" % t)), ("wind_dir", alg.sym("wd_%d" % t))]
-            if z0:
+            if z0 is True or (z0 == "late" and t >= 1):
                 params.append(("z0", alg.sym("z0_%d" % t)))
+            elif z0 == "late":
+                params.append(("z0", None))  # a series assembled step by step: the first step was forced by ustar alone
             params.append(("timestamp", alg.sym("ts_%d" % t)))
             nd = 3 if is3d else 2
             grid = Tup([_grid_array("X", nd), _grid_array("Y", nd), _grid_array("Z", nd)])
@@ -128,7 +130,7 @@ def io_obligations(P):
     obs = []
     site = "src/bldfm/io.py::save_footprints_to_netcdf"
     n_time = 2
-    for is3d, z0, order in [(a, b, [1, 0]) for a in (False, True) for b in (False, True)] + [(False, False, [1]), (True, True, [1])]:
+    for is3d, z0, order in [(a, b, [1, 0]) for a in (False, True) for b in (False, True)] + [(False, False, [1]), (True, True, [1]), (False, "late", [1, 0])]:
         if True:
             cfg = CM.make_obj(P, "BLDFMConfig", "config", {})
             # results keyed in another order than config.towers; and a result set for one tower only (not the first configured)
@@ -137,7 +139,7 @@ def io_obligations(P):
             fp = alg.sym("filepath")
             res = CM.run_paths(P, "bldfm.io", "save_footprints_to_netcdf", [results, cfg, fp], {}, stubs=rec.stubs())
             rets = [r for r in res if r.kind == "return"]
-            tag = "(%s, %s%s)" % ("3-D" if is3d else "2-D", "z0 forcing" if z0 else "ustar forcing", "" if len(order) > 1 else ", one tower")
+            tag = "(%s, %s%s)" % ("3-D" if is3d else "2-D", "z0 forcing from the second step on" if z0 == "late" else "z0 forcing" if z0 else "ustar forcing", "" if len(order) > 1 else ", one tower")
             if not rets:
                 obs.append(req_ob("R-NC-PLACE", site, "export is interpretable %s" % tag, None, detail=str([(r.kind, r.raise_desc) for r in res])[:300]))
                 continue
@@ -194,6 +196,9 @@ def io_obligations(P):
                             got = placed.get((t, ti))
                             obs.append(req_ob("R-NC-PLACE", site, "%s[time %d, tower slot %d] is that tower's %s field of that step %s" % (var, t, ti, fld, tag), got == "%s_%d_%d" % (fld, k, t),
                                               detail="holds %s" % got, key={"var": var}))
+                tw_ = [e for e in r.events if e[0] == "module-table-write"]
+                obs.append(req_ob("R-NC-PLACE", site, "the export leaves module-level tables as it found them (a second export in the same process writes the same file) %s" % tag, not tw_,
+                                  detail="; ".join("line %s: %s" % (e[1], e[2]) for e in tw_[:1]) or None, key={"clause": "tables"}))
                 # ---- labels
                 tw = cd.get("tower")
                 names = tw.items[1] if isinstance(tw, Tup) and len(tw.items) >= 2 else None
@@ -246,6 +251,8 @@ def io_obligations(P):
                     """what the container handed to the dataset holds at time index t: the last value stored there, through the
                     container itself, through a row view of a block, or through the block at (row, t)"""
                     out = None
+                    if isinstance(container, Arr) and container.meta.get("elements") is not None and t < len(container.meta["elements"]):
+                        return container.meta["elements"][t]  # an array made from the list of the per-step values
                     for ob, idx, val in obj_stores:
                         if ob is container and isinstance(idx, Expr) and idx.eq(alg.const(t)):
                             out = val
@@ -269,9 +276,16 @@ def io_obligations(P):
                     okd = isinstance(ent, Tup) and isinstance(ent.items[0], Tup) and ent.items[0].items == ["time"]
                     obs.append(req_ob("R-NC-FIELDS", site, "%s is a variable over time %s" % (var, tag), okd))
                 if z0:
-                    okz = all(any(isinstance(val, Expr) and val.eq(alg.sym("z0_%d" % t)) and isinstance(idx, Expr) and idx.eq(alg.const(t)) for nm, idx, val in arr_stores) for t in range(n_time))
                     dsz = [e for e in r.events if e[0] == "item-store" and e[2][1] == "z0"]
-                    wrote_z0 = wrote_z0 or (okz and bool(dsz))
+                    okz = False
+                    for e in dsz:
+                        ent = e[2][2]
+                        data = ent.items[1] if isinstance(ent, Tup) and len(ent.items) >= 2 else None
+                        if isinstance(data, (Opaque, Arr)):
+                            got = [written_at(data, t) for t in range(n_time)]
+                            steps = [t for t in range(n_time) if z0 is True or t >= 1]
+                            okz = okz or all(isinstance(got[t], Expr) and got[t].eq(alg.sym("z0_%d" % t)) for t in steps)
+                    wrote_z0 = wrote_z0 or okz
                 # ---- encoding
                 tn = [e for e in r.events if e[0] == "opaque-call" and e[2][1] == "to_netcdf"]
                 okw = len(tn) == 1 and tn[0][2][2] and tn[0][2][2][0] is fp or (len(tn) == 1 and isinstance(tn[0][2][2][0], Opaque) and tn[0][2][2][0].attrs.get("arg") is fp)
@@ -305,7 +319,7 @@ def io_obligations(P):
                             o.verdict = "uninterpretable"
                             o.detail = "on a path that rests on a guessed branch (%s): %s" % (guessed[0][:80], o.detail)
             if z0:
-                obs.append(req_ob("R-NC-FIELDS", site, "a configured roughness length is written per step %s" % tag, wrote_z0, key={"var": "z0"}))
+                obs.append(req_ob("R-NC-FIELDS", site, "a roughness length that some step carries is written at that step %s" % tag, wrote_z0, key={"var": "z0"}))
     # load: interpreted with a recording xarray
     m = P.module("bldfm.io")
     fn = m.functions.get("load_footprints_from_netcdf")
